@@ -24,8 +24,17 @@ UNKNOWN, join = max; IMM (python scalar / shape / dtype) and FRESH are both prin
 The only flow-sensitive rule: a site on name x at line S sees x as Fresh if a function-body-level statement
 `x = <Fresh expr>` ends before S and all bindings of x from that statement on are Fresh.
 
+Deliberately conservative choices (checked against torch / einops behaviour): einops.repeat, torch.sparse_*_tensor,
+as_tensor, .to, .contiguous, conj, broadcast_* may alias their input -> view; an unknown method of a private object
+is Fresh only when all its arguments are Fresh ((A @ B).H(x) aliases x); Cls.from_*(args) / Cls(args) give a fresh
+object whose *fields* have the origin of the arguments.
+
+Allow-list entries may carry "status": "open-finding": such an entry is not a justification but marks a genuine
+purity violation that is still in the code; the matching sites are returned in info['open_findings'].
+
 Anything unexpected (syntax error, unknown node where it matters, non-converging dataflow, bad allow-list) fails
-closed: gen_available := false.
+closed: gen_available := false.   `python3 effects.py [--nonfresh]` prints the inventory, `--selftest` checks the
+classifier on small snippets (parameter / view / unknown / fresh idioms).
 """
 from __future__ import annotations
 
@@ -115,11 +124,13 @@ VIEWLIKE = {
     'view_as_real', 'view_as_complex', 'atleast_1d', 'atleast_2d', 'atleast_3d', 'broadcast_to', 'broadcast_tensors',
     'broadcast_arrays', 'rearrange', 'unpack', 'unsqueeze_left', 'unsqueeze_right', 'broadcast_right', 'reduce_view',
     'conj', 'conj_physical', 'resolve_conj', 'resolve_neg', 'numpy', 'values', 'indices', 'crow_indices', 'col_indices',
-    'items', 'keys', 'get', 'pop', 'popitem', 'setdefault', 'diagonal', 'ravel', 'reshape_as', 't', 'adjoint',
+    'items', 'keys', 'get', 'pop', 'popitem', 'setdefault', 'diagonal', 'ravel', 'reshape_as', 't',
     'as_subclass', 'as_strided', 'unfold', 'real', 'imag', 'expand_dims', 'coalesce', 'to_dense', 'positive',
     'align_as', 'align_to', 'rename', 'refine_names', 'pin_memory', 'storage', 'untyped_storage', 'view_as',
     '__getitem__', '__iter__', '__next__', 'frombuffer', 'memoryview', 'Parameter', 'requires_grad', 'share_memory',
     'parameters', 'buffers', 'children', 'modules', 'named_parameters', 'named_buffers', 'state_dict',
+    'sparse_coo_tensor', 'sparse_csr_tensor', 'sparse_csc_tensor', 'sparse_bsr_tensor', 'sparse_bsc_tensor',
+    'sparse_compressed_tensor',
     'unsqueeze_at', 'unsqueeze_tensors_left', 'unsqueeze_tensors_right', 'unsqueeze_tensors_at', '__enter__',
 }
 VIEW_ATTRS = {'T', 'mT', 'H', 'mH', 'real', 'imag', 'data', 'grad', 'flat', 'base', '__dict__', '_base'}
@@ -221,6 +232,7 @@ class Scope:
         self.outer_decl: set[str] = set()       # global / nonlocal names
         self.children: list[Scope] = []
         self.container_bound: set[str] = set()
+        self.stores: dict[str, list[Binding]] = {}   # name.append(v) / name[i] = v: v goes into the container `name`
         self._ov_cache: dict = {}
         if isinstance(node, ast.Lambda):
             self.body = [node.body]
@@ -337,7 +349,7 @@ class Scope:
             elif isinstance(n, ast.Call) and isinstance(n.func, ast.Attribute) and n.func.attr in STORE_METHODS:
                 if isinstance(n.func.value, ast.Name):
                     args = [a.value if isinstance(a, ast.Starred) else a for a in n.args] + [k.value for k in n.keywords]
-                    self.add(n.func.value.id, 'store', args, n)
+                    self.add_store(n.func.value.id, args, n)
             elif hasattr(ast, 'MatchAs') and isinstance(n, (ast.MatchAs, ast.MatchStar)):
                 if n.name:
                     self.add(n.name, 'const', V_UNKNOWN, n)
@@ -370,7 +382,18 @@ class Scope:
             for t in tgt.elts:
                 self.store_into(t.value if isinstance(t, ast.Starred) else t, values, node)
         elif isinstance(tgt, ast.Subscript) and isinstance(tgt.value, ast.Name):
-            self.add(tgt.value.id, 'store', values, node)
+            self.add_store(tgt.value.id, values, node)
+
+    def add_store(self, name, values, node):
+        self.stores.setdefault(name, []).append(
+            Binding('store', values, getattr(node, 'lineno', 0), getattr(node, 'end_lineno', getattr(node, 'lineno', 0))))
+
+    def all_bindings(self, name):
+        """bindings of a local name, plus what is stored into it when it is (also) bound to a python container"""
+        bs = self.bindings.get(name, [])
+        if name in self.container_bound:
+            bs = bs + self.stores.get(name, [])
+        return bs
 
     # -------------------------------------------------------------------------------------------------------------
     # environment
@@ -405,9 +428,9 @@ class Scope:
             self.env[nm] = V_UNKNOWN
         for _ in range(40):
             changed = False
-            for nm, bs in self.bindings.items():
+            for nm in self.bindings:
                 v = self.env[nm]
-                for b in bs:
+                for b in self.all_bindings(nm):
                     v = join(v, self.eval_binding(nm, b, None))
                 if v != self.env[nm]:
                     self.env[nm] = v
@@ -477,9 +500,10 @@ class Scope:
             bi = min([i for i, (a, z) in enumerate(ranges) if a <= b.line <= z], default=None)
             return bi is None or bi <= site_idx
 
-        for nm, bs in self.bindings.items():
+        for nm in self.bindings:
             if nm in self.outer_decl or top(self.env.get(nm, V_IMM)) <= FRESH:
                 continue
+            bs = self.all_bindings(nm)
             cands = sorted([b for b in bs if b.toplevel and b.mode == 'val' and b.end < line], key=lambda b: -b.line)
             for c in cands:
                 # the right-hand side of the re-binding itself still sees the old (flow-insensitive) value of the name
@@ -642,7 +666,9 @@ class Scope:
         if m in COMPUTE_METHODS:
             return V_FRESH
         if top(recv) <= FRESH:
-            return V_FRESH
+            # unknown method of a private object: its result can still alias an argument, e.g. (A @ B).H(x)
+            a = jtop(self.argvals(c, ov))
+            return V_FRESH if a <= FRESH else view_of((a, a))
         if recv[0] <= FRESH:
             return view_of(recv)
         return V_UNKNOWN
@@ -656,9 +682,10 @@ class Scope:
             return V_UNKNOWN
         if last in TORCH_IMM:
             return V_IMM
-        if last in VIEWLIKE:
+        if last in VIEWLIKE or last == 'adjoint':
             vs = self.argvals(c, ov, positional_only=True)
-            vs += [self.ev(k.value, ov) for k in c.keywords if k.arg in ('input', 'tensors', 'self', 'data', 'a', 'x', 'array', 'obj')]
+            vs += [self.ev(k.value, ov) for k in c.keywords if k.arg in ('input', 'tensors', 'self', 'data', 'a', 'x', 'array', 'obj', 'indices', 'values',
+                                                                      'crow_indices', 'col_indices', 'ccol_indices', 'row_indices')]
             v = V_IMM
             for x in vs:
                 v = join(v, x)
@@ -675,10 +702,11 @@ class Scope:
         if root in ('math', 'cmath', 'warnings'):
             return V_IMM
         if root == 'einops':
-            if last in ('rearrange', 'unpack'):
+            if last in ('rearrange', 'unpack', 'repeat'):
+                # einops.repeat returns an expanded *view* when it only adds axes (checked: shares the data pointer)
                 vs = self.argvals(c, ov, positional_only=True)
                 return view_of(vs[0]) if vs else V_UNKNOWN
-            if last in ('repeat', 'reduce', 'einsum', 'pack'):
+            if last in ('reduce', 'einsum', 'pack'):
                 return V_FRESH
             if last == 'parse_shape':
                 return V_IMM
@@ -982,6 +1010,10 @@ def allow_key(e):
     return (e['module'], e['function'], e['kind'], e['target'])
 
 
+def open_keys(allow: list[dict]) -> set:
+    return {allow_key(a) for a in allow if a.get('status') == 'open-finding'}
+
+
 def site_ok(allow_keys: set, s: dict) -> bool:
     """same rule as Model/Effects.v site_ok"""
     return s['origin'] == 'OFresh' or allow_key(s) in allow_keys
@@ -1032,6 +1064,8 @@ def analyse() -> tuple[list[dict], list[dict], dict]:
         'bad_sites': [s for s in sites if not site_ok(keys, s)],
         'unused_allow': [a for a in allow if allow_key(a) not in used],
         'sites': sites,
+        # sites that are on the allow-list only as a marked, *unjustified* open finding (genuine purity violation)
+        'open_findings': [s for s in sites if s['origin'] != 'OFresh' and allow_key(s) in open_keys(allow)],
     }
     return sites, allow, info
 
@@ -1051,7 +1085,49 @@ def write(out: Path) -> tuple[bool, str, dict]:
     return True, '', info
 
 
+_SELFTEST = [  # (source, [(kind, origin or 'NF' = any non-fresh origin, target)] in line order)
+    ('def f(x):\n    x += 1\n', [('KAugAssign', 'OParam', 'x')]),
+    ('def f(x):\n    x = x.clone()\n    x += 1\n', [('KAugAssign', 'OFresh', 'x')]),
+    ('def f(x, c):\n    if c:\n        x = x.clone()\n    x += 1\n', [('KAugAssign', 'OParam', 'x')]),
+    ('def f(x):\n    x = x.reshape(-1)\n    x.add_(1)\n', [('KInplaceCall', 'NF', 'x')]),
+    ('def f(x, ps):\n    x = x.clone()\n    for p in ps:\n        x += 1\n        x = p\n', [('KAugAssign', 'NF', 'x')]),
+    ('import torch\ndef f(s):\n    if not isinstance(s, torch.Tensor):\n        s = torch.as_tensor(1.0 * s)\n    s[s < 1] += 1\n',
+     [('KAugAssign', 'OParam', 's')]),
+    ('class A:\n  def f(self, k):\n    (r,) = self.op.H(k)\n    r += 1\n', [('KAugAssign', 'OUnknown', 'r')]),
+    ('class A:\n  def f(self, k):\n    (r,) = (self.a @ self.b).H(k)\n    r += 1\n', [('KAugAssign', 'NF', 'r')]),
+    ('class A:\n  def f(self):\n    h = self.header.clone()\n    setattr(h.limits, "a", 1)\n', [('KSetAttr', 'OFresh', 'h')]),
+    ('class A:\n  def __init__(self, a):\n    self.a = a\n  def g(self):\n    self.a = 1\n    self.b[0] = 2\n',
+     [('KSetAttr', 'OAttr', 'self'), ('KSubscriptAssign', 'OAttr', 'self')]),
+    ('import torch\ndef f(x, y):\n    r = torch.add(x, 1, out=y)\n    r += 1\n', [('KOutKw', 'OParam', 'y'), ('KAugAssign', 'OParam', 'r')]),
+    ('import torch\ndef f(x, y):\n    r = torch.add(x, y)\n    r += 1\n', [('KAugAssign', 'OFresh', 'r')]),
+    ('def f(x):\n    n = 0\n    for i in range(3):\n        n += 1\n    k = x.shape[0]\n    k -= 1\n', []),
+    ('def f(a, b):\n    out = []\n    out.append(a)\n    out[0] += 1\n    for t in [a, b]:\n        t.mul_(2)\n',
+     [('KAugAssign', 'NF', 'out'), ('KInplaceCall', 'NF', 't')]),
+    ('from einops import repeat\ndef f(x):\n    z = repeat(x, "a -> a b", b=1)\n    z += 1\n', [('KAugAssign', 'OViewOfParam', 'z')]),
+    ('import torch\nG = torch.zeros(3)\ndef f():\n    G.add_(1)\n', [('KInplaceCall', 'OUnknown', 'G')]),
+    ('import torch\ndef f(w):\n    torch.nn.init.zeros_(w)\n', [('KInplaceCall', 'OParam', 'w')]),
+    ('def f(x):\n    def g():\n        x.add_(1)\n', [('KInplaceCall', 'OParam', 'x')]),
+    ('class A:\n  def f(self, d):\n    new = Foo(d)\n    new.data[0] = 1\n    new.flag = 2\n',
+     [('KSubscriptAssign', 'NF', 'new'), ('KSetAttr', 'OFresh', 'new')]),
+]
+
+
+def selftest() -> list[str]:
+    errors = []
+    for src, want in _SELFTEST:
+        got = [(s['kind'], s['origin'], s['target']) for s in sorted(scan_source('selftest', src), key=lambda s: s['line'])]
+        ok = len(got) == len(want) and all(
+            g[0] == w[0] and g[2] == w[2] and (g[1] == w[1] or (w[1] == 'NF' and g[1] != 'OFresh')) for g, w in zip(got, want))
+        if not ok:
+            errors.append(f'{src!r}: got {got}, want {want}')
+    return errors
+
+
 def main(argv: list[str]) -> int:
+    if '--selftest' in argv:
+        errs = selftest()
+        print('\n'.join(errs) if errs else f'selftest ok ({len(_SELFTEST)} snippets)')
+        return 1 if errs else 0
     try:
         sites, allow, info = analyse()
     except Exception as e:  # noqa: BLE001
@@ -1063,7 +1139,8 @@ def main(argv: list[str]) -> int:
     for s in sites:
         if only_nonfresh and s['origin'] == 'OFresh':
             continue
-        ok = 'fresh' if s['origin'] == 'OFresh' else ('allowed' if allow_key(s) in keys else 'NOT ALLOWED')
+        ok = ('fresh' if s['origin'] == 'OFresh' else 'OPEN FINDING (listed)' if allow_key(s) in open_keys(allow)
+              else 'allowed' if allow_key(s) in keys else 'NOT ALLOWED')
         rows.append((s['module'], s['function'], str(s['line']), s['kind'], s['origin'], s['target'], ok))
     widths = [max(len(r[i]) for r in rows) for i in range(len(rows[0]))]
     for r in rows:
@@ -1071,7 +1148,8 @@ def main(argv: list[str]) -> int:
     print(f'\n{info["n_sites"]} sites in {info["n_files"]} files of {repo()}/src/mrpro')
     print('by kind:  ', info['by_kind'])
     print('by origin:', info['by_origin'])
-    print(f'bad sites: {len(info["bad_sites"])}   unused allow-list entries: {len(info["unused_allow"])}')
+    print(f'bad sites: {len(info["bad_sites"])}   unused allow-list entries: {len(info["unused_allow"])}   '
+          f'open findings: {len(info["open_findings"])}')
     for a in info['unused_allow']:
         print('  UNUSED', allow_key(a))
     return 0 if not info['bad_sites'] and not info['unused_allow'] else 1
